@@ -48,7 +48,15 @@ def r1_fraction_value(rep, ctx):
     ci = m.cls("FractionValue")
     fl = m.own_method("FractionValue", "__float__")
     v = _single_return(fl) if fl else None
-    ok = v is not None and ast.unparse(v).replace(" ", "") in ("self._number+float(self._fraction)", "float(self._fraction)+self._number", "self.number+float(self.fraction)")
+    ok = False
+    if v is not None:
+        t = Resolver(m, fl).term(v)
+        num = (("field", "_number"), ("field", "number"), ("call", ("field", "GetNumber"), (), ()))
+        frac = (("field", "_fraction"), ("field", "fraction"), ("call", ("field", "GetFraction"), (), ()))
+        if t[0] == "op" and t[1] == "Add" and len(t[2]) == 2:
+            a_, b_ = t[2]
+            is_f = lambda x: x[0] == "call" and x[1] == ("name", "float") and len(x[2]) == 1 and x[2][0] in frac
+            ok = (a_ in num and is_f(b_)) or (b_ in num and is_f(a_))
     rep.check(ok, "C18.R1", "FractionValue.__float__", "float(value) is number + float(fraction)", "FractionValue.__float__ returns %s" % (ast.unparse(v) if v is not None else None), fn=fl)
     for d, opcls in ORDER.items():
         fn = ci.methods.get(d)
@@ -63,7 +71,7 @@ def r1_fraction_value(rep, ctx):
                   "FractionValue.%s returns `%s`, expected float(self) %s float(other)" % (d, ast.unparse(v) if v is not None else None, {ast.Lt: "<", ast.LtE: "<=", ast.Gt: ">", ast.GtE: ">="}[opcls]), fn=fn)
     cp = m.own_method("FractionValue", "__copy__")
     v = _single_return(cp) if cp else None
-    txt = ast.unparse(v).replace(" ", "") if v is not None else ""
+    txt = show(Resolver(m, cp).term(v), 300).replace(" ", "") if v is not None else ""
     ok = "self._number" in txt and "self._fraction.numerator" in txt and "self._fraction.denominator" in txt and txt.index("numerator") < txt.index("denominator")
     rep.check(ok, "C18.R1", "FractionValue.__copy__", "a copy is rebuilt from the number and (numerator, denominator) of the fraction", "FractionValue.__copy__ returns %s" % txt, fn=cp)
     eq = m.own_method("FractionValue", "__eq__")
@@ -119,11 +127,19 @@ def r2_fraction(rep, ctx):
     ok = cond == "abs(a-round(a))>SMALL" and after is not None and ast.unparse(after.value).replace(" ", "") == "round(a)"
     rep.check(ok, "C18.R2", "Fraction.__init__:rounding", "the numerator is scaled until it is within SMALL of round(a) and then converted with that same round(a)",
               "Fraction.__init__ scales the numerator under `%s` but converts it with `%s`: a scaled value just below an integer (0.57*100 = 56.99999999999999) is truncated" % (cond, ast.unparse(after.value) if after is not None else None), fn=init)
-    # number operands are lifted before use
-    for name in ("__add__", "__mul__", "__truediv__", "__mod__"):
-        fn, b = body_txt(name)
-        lifted = any(s.startswith("ifisinstance(other,NumberType):") and "other=Fraction(other)" in s for s in b)
-        rep.check(lifted, "C18.R2", "Fraction.%s:lifts-numbers" % name, "a plain number operand is lifted to a Fraction first", "Fraction.%s does not lift a plain number operand" % name, fn=fn)
+    # number operands are lifted before use: with `other` an int, a float or a Fraction, every attribute
+    # the dunder reads from `other` must exist (type-state analysis; the lifting may be inline or in a helper)
+    from ..guards import GuardAnalysis, show_state
+    ga = GuardAnalysis(m)
+    start = (frozenset([("cls", "Fraction"), ("builtin", "int"), ("builtin", "float")]), frozenset())
+    for name in ("__add__", "__mul__", "__truediv__", "__mod__", "__old_cmp__"):
+        fn = ci.methods.get(name)
+        if fn is None:
+            continue
+        uses, _, _ = ga.analyze(fn, fn.params[1], start)
+        bad = [u for u in uses if not getattr(u, "ok", False) and u.need in ("x", "numerator", "denominator", "inv")]
+        rep.check(not bad, "C18.R2", "Fraction.%s:lifts-numbers" % name, "a plain number operand is lifted to a Fraction before its parts are read",
+                  "Fraction.%s reads `other.%s` while other may still be a plain number (%s)" % (name, bad[0].need if bad else "", show_state(bad[0].state) if bad else ""), fn=fn)
     # == and < through one helper
     eqf, eqb = body_txt("__eq__")
     ltf, ltb = body_txt("__lt__")
@@ -137,17 +153,20 @@ def r2_fraction(rep, ctx):
     rep.check(deco and not others, "C18.R2", "Fraction:total-ordering", "the remaining order operators derive from the shared helper through total_ordering", "Fraction is %s" % ("not @total_ordering" if not deco else "defining %s separately" % others), fn=ltf)
 
 
-def _norm_lt(fn):
-    """Normalised statements of a __lt__ body, message formatting ignored."""
-    out = []
-    for st in fn.node.body:
-        if isinstance(st, ast.Expr) and isinstance(st.value, ast.Constant):
-            continue
+def _norm_lt(model, fn):
+    """Shape of a __lt__ body independent of temporaries and formatting: the guards (test term, raised
+    exception types) and the term of every returned comparison."""
+    res = Resolver(model, fn)
+    guards = []
+    rets = []
+    for st in ast.walk(fn.node):
         if isinstance(st, ast.If):
-            out.append("if " + ast.unparse(st.test) + ": raise " + "/".join(sorted({ast.unparse(r.exc.func) for r in ast.walk(st) if isinstance(r, ast.Raise) and isinstance(r.exc, ast.Call)})))
-        else:
-            out.append(ast.unparse(st))
-    return out
+            raises = sorted({ast.unparse(r.exc.func) for r in ast.walk(st) if isinstance(r, ast.Raise) and isinstance(r.exc, ast.Call)})
+            if raises:
+                guards.append((show(res.term(st.test), 300), tuple(raises)))
+        elif isinstance(st, ast.Return) and st.value is not None:
+            rets.append(show(res.term(st.value), 300))
+    return sorted(guards), sorted(rets)
 
 
 def r3_siblings(rep, ctx):
@@ -156,7 +175,7 @@ def r3_siblings(rep, ctx):
     b = m.own_method("FractionScalar", "__lt__")
     if a is None or b is None:
         raise AnalysisError("__lt__ of Scalar / FractionScalar not found")
-    na, nb = _norm_lt(a), _norm_lt(b)
+    na, nb = _norm_lt(m, a), _norm_lt(m, b)
     rep.check(na == nb, "C18.R3", "FractionScalar.__lt__:same-as-Scalar", "FractionScalar.__lt__ has the same guard, conversion and comparison as Scalar.__lt__", "FractionScalar.__lt__ (%s) differs from Scalar.__lt__ (%s)" % (nb, na), fn=b)
     from . import c08, c12
     borrow(rep, c08.r3_orientation, ctx, "C08.R3", "C18.R3", keep=lambda o: "FractionScalar" in o.key)
@@ -165,11 +184,12 @@ def r3_siblings(rep, ctx):
     g = m.own_method("FractionScalar", "GetAbstractValue")
     res = Resolver(m, g)
     ok = False
+    from ..facts import ordered_args
+    cfv = m.method("FractionScalar", "ConvertFractionValue")
     for r in own_nodes(g.node):
-        if isinstance(r, ast.Return) and isinstance(r.value, ast.Call):
-            t = res.term(r.value)
-            if t[0] == "call" and t[1] == ("field", "ConvertFractionValue") and len(t[2]) == 4:
-                ok = list(t[2]) == [("field", "_value"), ("field", "_quantity"), ("field", "unit"), ("param", 1, "unit")]
+        if isinstance(r, ast.Return) and isinstance(r.value, ast.Call) and isinstance(r.value.func, ast.Attribute) and r.value.func.attr == "ConvertFractionValue":
+            args = [res.term(a) if a is not None else None for a in ordered_args(r.value, cfv)]
+            ok = args == [("field", "_value"), ("field", "_quantity"), ("field", "unit"), ("param", 1, "unit")]
     rep.check(ok, "C18.R3", "FractionScalar.GetAbstractValue", "the stored FractionValue is converted from the own unit to the requested unit under the own quantity", "FractionScalar.GetAbstractValue passes other roles to ConvertFractionValue", fn=g)
     # the registered FractionValue conversion goes through the same routine
     reg = m.funcs.get(m.method("FractionScalar", "RegisterFractionScalarConversion").qual + ".ConvertFractionScalar")
